@@ -306,5 +306,28 @@ PROPS["C15"]["explanation"] += (" 'Then obeyed': C16_heartbeat_as_announced (tim
                                 "channel_max); the c16 driver compares the timers' intervals and the TuneOk on "
                                 "the wire with the model.")
 
+
+PROPS["C12"] = {
+    "check_mods": ["C12"],
+    "model_out": "model_out",
+    "drivers": [{"name": "c12", "n_quick": 900, "n_thorough": 30000, "timeout": 3000}],
+    "rule": "every public entry point of Channel / Queue / Exchange / Consumer / Delivery / Get (30 operation "
+            "families, through the channel and through the wrapper objects, sync / nowait / passive variants) "
+            "called on a real connection, round robin, with every boolean option random, names of 0-250 bytes "
+            "incl. UTF-8 and spaces, source / destination / queue / exchange always distinct, three argument "
+            "tables (empty, one entry, nested), numeric extremes; settle operations through all three holders "
+            "and in a quarter of the cases through the wrong channel; cancel, cancel twice, cancel by drop. "
+            "The methods on the wire are decoded by the harness's own field decoder (amq-protocol's "
+            "server-side parser is not used). Every case is non-trivial; distinct = distinct case term.",
+    "explanation": "C12_emit_describes (the table the code implements = the documentation table, all "
+                   "arguments), C12_nowait_iff, C12_passive_iff, C12_bind_direction, C12_wrong_channel. "
+                   "What the broker sees on the operation's channel must equal the model's emission and, "
+                   "independently, the documentation table's; nothing may appear on another channel; a "
+                   "wrong-channel settle must panic having sent nothing.",
+    "trusted_base": L2_TRUSTED + ["amq-protocol's generator for the client's methods (the decoder is the harness's own); "
+                                  "argument tables are compared as the bytes amq-protocol generates for the pool tables"],
+    "assumptions": ["Basic.Publish is C02's; Connection.Close / Channel.Open are observed by C08 / C10 / C16"],
+}
+
 # properties not claimed, with the reason (kept current)
 NOT_APPLICABLE = {}
